@@ -29,9 +29,9 @@ CPP_KEYS = [
     for s in ("c++14", "c++17", "c++20", "c++17-pmr")
     for e in ("any", "little", "big")
     for a in (0, 1)
-    for c in ("vector", "minivec")
+    for c in ("vector", "minivec", "fixedvec")
     # the c++17-pmr shorthand sets the container options as a unit (C13): a user container does not apply there
-    if not (s == "c++17-pmr" and c == "minivec")
+    if not (s == "c++17-pmr" and c != "vector")
 ] + [
     # allocator that is not default constructible + container built from (max size, allocator), C++14 built-in variant;
     # compiled against the stand-in for the CETL headers (lab.STANDIN); types hit by the two known C06 findings are skipped
@@ -190,7 +190,7 @@ def job_strategy(draw, spec: dict, fixed_universe: typing.Optional[dict] = None)
                 targets.append(draw(st.sampled_from(alloc_pool)))
         if fixed_universe is not None:
             # the anchor is always run on the flavours whose code differs structurally
-            for k in ("cpp|c++17-pmr|any|0|vector", "cpp|c++14|little|1|vector", "cpp|cetl++14-17|any|1|cetl", "c|little|1|0", "c|any|0|0", "c|little|0|0|nofloat", "cpp|c++17|any|0|vector|nofloat"):
+            for k in ("cpp|c++17-pmr|any|0|vector", "cpp|c++14|little|1|vector", "cpp|cetl++14-17|any|1|cetl", "cpp|c++20|big|0|fixedvec", "c|little|1|0", "c|any|0|0", "c|little|0|0|nofloat", "cpp|c++17|any|0|vector|nofloat"):
                 if k.split("|")[0] == "c" and not n_c or k.split("|")[0] == "cpp" and not n_cpp:
                     continue
                 if k not in targets and spec.get("c_filter" if k.startswith("c|") else "cpp_filter", lambda k: True)(k):
@@ -377,7 +377,8 @@ def execute(jobs: typing.List[dict], sanitize: bool = True, workers: int = 16, c
     def run_one(ji: int, key: str):
         job, L = jobs[ji], labs[ji]
         idx, cmds = [], []
-        alloc_flavour = key.startswith("cpp|") and key.split("|")[1] in lab.ALLOC_STDS
+        # containers that enforce a maximum size: the allocator flavour's (run-time maximum) and fixedvec (capacity = {MAX_SIZE})
+        alloc_flavour = key.startswith("cpp|") and (key.split("|")[1] in lab.ALLOC_STDS or key.split("|")[4:5] == ["fixedvec"])
         excluded = L.skipped(key)
         for ci, c in enumerate(job["cases"]):
             if c["ti"] in excluded or (alloc_flavour and c["op"] == "S" and c["dom"] == "invalid"):
